@@ -42,16 +42,18 @@ Fixpoint noexit_expr (k : nat) (x : expr) {struct k} : bool :=
       end
   end.
 
+Definition param_ids (params : list (string * N * span * ty)) : list N := map (fun p => snd (fst (fst p))) params.
+
 Section Frag.
 Variable pv : N.      (* the id of the external `print` *)
 Variable sv : N.      (* the id of `start` *)
 Variable bound : N.   (* |r_vars| + 1 *)
-Variable fl : list (N * nat).   (* the top-level functions that can be called here, with their arities *)
+(* fl (an argument below) = the functions that can be called by name here, with their arities *)
 
-Definition fun_arity (f : N) : option nat :=
+Definition fun_arity (fl : list (N * nat)) (f : N) : option nat :=
   match find (fun fa => fst fa =? f) fl with Some fa => Some (snd fa) | None => None end.
 
-Definition fresh_id (sc : list N) (v : N) : bool :=
+Definition fresh_id (fl : list (N * nat)) (sc : list N) (v : N) : bool :=
   negb (memN v sc) && negb (v =? pv) && negb (v =? sv) && (v <? bound) && negb (memN v (map fst fl)).
 
 Definition assign_op (op : binop) : bool :=
@@ -59,76 +61,98 @@ Definition assign_op (op : binop) : bool :=
 
 Definition is_some {A} (o : option A) : bool := match o with Some _ => true | None => false end.
 
-(* expressions; sc = the user variables in scope (all of them locals of `start`).
+(* the parameters of a function: new ids, pairwise different *)
+Fixpoint params_ok (fl : list (N * nat)) (sc : list N) (ps : list N) : bool :=
+  match ps with
+  | [] => true
+  | p :: ps' => fresh_id fl sc p && params_ok fl (p :: sc) ps'
+  end.
+
+(* expressions; sc = the user variables in scope.
    if-expressions: an `else` branch only in last position; the bodies are statement lists in their own scope. *)
-Fixpoint frag_expr (k : nat) (sc : list N) (x : expr) {struct k} : bool :=
+Fixpoint frag_expr (fl : list (N * nat)) (k : nat) (sc : list N) (x : expr) {struct k} : bool :=
   match k with
   | O => false
   | S k =>
       match x with
       | EInt _ _ | EBool _ _ => true
       | ERead v _ => memN v sc
-      | EBinOp op a b _ => frag_binop op && frag_expr k sc a && frag_expr k sc b
-      | EUniOp _ a _ => frag_expr k sc a
+      | EBinOp op a b _ => frag_binop op && frag_expr fl k sc a && frag_expr fl k sc b
+      | EUniOp _ a _ => frag_expr fl k sc a
       | ECall (ERead f _) args _ =>
           if f =? pv then
-            match args with [a] => negb (memN pv sc) && frag_expr k sc a | _ => false end      (* print(a) *)
+            match args with [a] => negb (memN pv sc) && frag_expr fl k sc a | _ => false end      (* print(a) *)
           else                                                                              (* f(a1, ..., an) *)
-            match fun_arity f with
-            | Some ar => Nat.eqb (length args) ar && forallb (frag_expr k sc) args
+            match fun_arity fl f with
+            | Some ar => Nat.eqb (length args) ar && forallb (frag_expr fl k sc) args
             | None => false
             end
-      | EIf branches _ => frag_branches k sc branches
+      | EIf branches _ => frag_branches fl k sc branches
       | _ => false
       end
   end
 
-with frag_branches (k : nat) (sc : list N) (brs : list ifbranch) {struct k} : bool :=
+with frag_branches (fl : list (N * nat)) (k : nat) (sc : list N) (brs : list ifbranch) {struct k} : bool :=
   match k with
   | O => false
   | S k =>
       match brs with
       | [] => true
       | IfBranch (Some cond) body _ :: brs' =>
-          frag_expr k sc cond && is_some (frag_stmts k sc body) && frag_branches k sc brs'
-      | [IfBranch None body _] => is_some (frag_stmts k sc body)
+          frag_expr fl k sc cond && is_some (frag_stmts fl k sc body) && frag_branches fl k sc brs'
+      | [IfBranch None body _] => is_some (frag_stmts fl k sc body)
       | IfBranch None _ _ :: _ :: _ => false
       end
   end
 
 (* statements: the scope after the statement, None = outside the fragment *)
-with frag_stmt (k : nat) (sc : list N) (s : stmt) {struct k} : option (list N) :=
+with frag_stmt (fl : list (N * nat)) (k : nat) (sc : list N) (s : stmt) {struct k} : option (list N) :=
   match k with
   | O => None
   | S k =>
       match s with
       | SDefinition _ var _ _ value _ =>
           match value with
-          | EFunction _ _ _ _ _ _ => None
-          | _ => if fresh_id sc var && frag_expr k (var :: sc) value then Some (var :: sc) else None
+          | EFunction _ _ _ _ _ _ => None                  (* a local function: see frag_stmts *)
+          | _ => if fresh_id fl sc var && frag_expr fl k (var :: sc) value then Some (var :: sc) else None
           end
       | SAssignment op (ERead v _) value _ =>
-          if assign_op op && memN v sc && frag_expr k sc value then Some sc else None
-      | SStatementExpression value _ => if frag_expr k sc value then Some sc else None
+          if assign_op op && memN v sc && frag_expr fl k sc value then Some sc else None
+      | SStatementExpression value _ => if frag_expr fl k sc value then Some sc else None
       | SBlock ss _ =>
-          match frag_stmts k sc ss with Some _ => Some sc | None => None end
+          match frag_stmts fl k sc ss with Some _ => Some sc | None => None end
       | SLoop cond body _ =>
-          if noexit_expr k cond && frag_expr k sc cond && is_some (frag_stmts k sc body) then Some sc else None
+          if noexit_expr k cond && frag_expr fl k sc cond && is_some (frag_stmts fl k sc body) then Some sc else None
       | SBreak _ | SContinue _ => Some sc
-      | SRet (Some value) _ => if frag_expr k sc value then Some sc else None      (* early return *)
+      | SRet (Some value) _ => if frag_expr fl k sc value then Some sc else None      (* early return *)
       | _ => None
       end
   end
-with frag_stmts (k : nat) (sc : list N) (ss : list stmt) {struct k} : option (list N) :=
+
+(* statement lists -- the body of a function, of a block, of a loop, of an if-branch: statements of the fragment and
+   definitions of LOCAL functions  f :: fn ... end.  A local function sees what is in scope where it is defined -- the
+   parameters and locals of the enclosing function(s) so far (mutable ones too: it reads and assigns the same
+   variables), the globals, the callable functions and itself -- and can be called by name after its definition until
+   the end of the list, from nested blocks and from later local functions too.  The result is the scope and the
+   callable functions at the end of the list. *)
+with frag_stmts (fl : list (N * nat)) (k : nat) (sc : list N) (ss : list stmt) {struct k} : option (list N * list (N * nat)) :=
   match k with
   | O => None
   | S k =>
       match ss with
-      | [] => Some sc
+      | [] => Some (sc, fl)
       | s :: ss' =>
-          match frag_stmt k sc s with
-          | Some sc' => frag_stmts k sc' ss'
-          | None => None
+          match s with
+          | SDefinition _ fv _ _ (EFunction _ params _ body _ _) _ =>
+              let ps := param_ids params in
+              let fl' := (fv, length ps) :: fl in
+              if fresh_id fl sc fv && params_ok fl' sc ps && is_some (frag_stmts fl' k (rev ps ++ sc) body)
+              then frag_stmts fl' k sc ss' else None
+          | _ =>
+              match frag_stmt fl k sc s with
+              | Some sc' => frag_stmts fl k sc' ss'
+              | None => None
+              end
           end
       end
   end.
@@ -160,44 +184,6 @@ Fixpoint split_last {A} (l : list A) : option (list A * A) :=
               end
   end.
 
-Definition param_ids (params : list (string * N * span * ty)) : list N := map (fun p => snd (fst (fst p))) params.
-
-(* the parameters of a function: new ids, pairwise different *)
-Fixpoint params_ok (pv sv bound : N) (fl : list (N * nat)) (sc : list N) (ps : list N) : bool :=
-  match ps with
-  | [] => true
-  | p :: ps' => fresh_id pv sv bound fl sc p && params_ok pv sv bound fl (p :: sc) ps'
-  end.
-
-(* the body of a function: statements of the fragment and, at its top level, definitions of LOCAL functions
-   f :: fn ... end.  A local function sees what is in scope where it is defined -- the parameters and locals of
-   the enclosing function so far (mutable ones too: it reads and assigns the same variables), the globals, the
-   callable functions and itself -- and can be called by name after its definition, from nested blocks and from
-   later local functions too.  The result is the scope and the callable functions at the end of the body. *)
-Fixpoint frag_body (pv sv bound : N) (k : nat) (fl : list (N * nat)) (sc : list N) (ss : list stmt) {struct k}
-  : option (list N * list (N * nat)) :=
-  match k with
-  | O => None
-  | S k =>
-      match ss with
-      | [] => Some (sc, fl)
-      | s :: rest =>
-          match s with
-          | SDefinition _ fv _ _ (EFunction _ params _ body _ _) _ =>
-              let ps := param_ids params in
-              let fl' := (fv, length ps) :: fl in
-              if fresh_id pv sv bound fl sc fv && params_ok pv sv bound fl' sc ps
-                 && is_some (frag_body pv sv bound k fl' (rev ps ++ sc) body)
-              then frag_body pv sv bound k fl' sc rest else None
-          | _ =>
-              match frag_stmt pv sv bound fl k sc s with
-              | Some sc' => frag_body pv sv bound k fl sc' rest
-              | None => None
-              end
-          end
-      end
-  end.
-
 (* the outer statements: global values and functions.
    scg = the global values so far, fl = the functions so far; a function sees the earlier globals and
    functions and itself (recursion) *)
@@ -211,7 +197,7 @@ Fixpoint frag_items (pv sv bound : N) (k : nat) (scg : list N) (fl : list (N * n
           let ps := param_ids params in
           let fl' := (fv, length ps) :: fl in
           if fresh_id pv sv bound fl scg fv && params_ok pv sv bound fl' scg ps
-             && is_some (frag_body pv sv bound k fl' (rev ps ++ scg) body)
+             && is_some (frag_stmts pv sv bound fl' k (rev ps ++ scg) body)
           then frag_items pv sv bound k scg fl' rest else None
       | SDefinition _ _ _ _ _ _ =>
           match frag_stmt pv sv bound fl k scg s with
@@ -222,8 +208,9 @@ Fixpoint frag_items (pv sv bound : N) (k : nat) (scg : list N) (fl : list (N * n
       end
   end.
 
-(* STAGE 4c (4b + LOCAL FUNCTIONS: closures over the variables of the enclosing function, mutable ones included,
-   called by name, see frag_body; 4b = 4a + outer definitions in any order the resolver allows, also after `start`; 4a = 3b + early return
+(* STAGE 4c' (4c + local functions in ANY statement list: blocks, loop bodies, if-branches; 4c = 4b + LOCAL FUNCTIONS:
+   closures over the variables of the enclosing function, mutable ones included, called by name, see frag_stmts;
+   4b = 4a + outer definitions in any order the resolver allows, also after `start`; 4a = 3b + early return
    `ret e`; 3b = 3a + top-level functions and their calls, recursion included):
    the outer statements are  `print` external, then global definitions in the order the resolver gives them;
    `start :: fn do ... end` is one of them (a function without parameters, anywhere in the list) and is called after
@@ -235,13 +222,15 @@ Fixpoint frag_items (pv sv bound : N) (k : nat) (scg : list N) (fl : list (N * n
      - definitions (constant or mutable) of int/bool-valued expressions, expression statements, nested blocks,
      - assignments  x = e, x += e, x -= e, x *= e  to variables in scope (parameters, locals and global values),
      - `ret e` anywhere in a function or in start (inside if-branches and loops too): the call ends with the value of e,
-     - at the TOP LEVEL of a function body (not inside a nested block, branch or loop): LOCAL FUNCTIONS
+     - in any statement list (a function body, a block, the body of a loop, an if-branch): LOCAL FUNCTIONS
          lf :: fn p1: T1, ..., pn: Tn -> T do ... end
        whose body is again a function body of the fragment (local functions nested to any depth); it sees the variables
        of the enclosing function(s) that are in scope at its definition (parameters, constant and MUTABLE locals, which it
        may assign: the closure and the enclosing function share the variable, each sees the later assignments of the
        other; every activation has its own locals), the global values, the functions visible there and itself;
-       it is called by name, from the rest of the enclosing body and from the local functions defined later in it,
+       it is called by name, until the end of the list it is defined in: from the rest of that list, its nested lists and
+       the local functions defined later in it.  Every execution of the list (every pass of a loop) creates its own
+       closure over the variables of that execution,
      - loops `loop c do ... end` with break and continue; the condition c contains no if-expression
        (noexit_expr; since /repo fcfe8d3 the type checker rejects break/continue in a loop condition, so
        this is implied by acceptance for what matters: no break/continue can leave the condition);
